@@ -306,17 +306,19 @@ Record result := {
   res_states : nat;                   (* states expanded *)
   res_quiescent : nat;                (* non-final states in which only the tear-down was possible and no call had failed *)
   res_complete : bool;                (* false = out of fuel *)
-  res_hang : option (list label)      (* labels (reversed) leading to a terminal state that is not final *)
+  res_hang : option (list label);     (* labels (reversed) leading to a terminal state that is not final *)
+  res_quiet : option (list label)     (* labels (reversed) leading to the first quiescent state found: not final, no
+                                         call has failed, and only the tear-down is possible *)
 }.
 
 Fixpoint explore (fuel : nat) (sc : scenario) (p : params) (todo : list (state * list label))
                  (seen : PositiveSet.t) (outs : list nat) (nstates nquiet : nat)
-                 (hang : option (list label)) : result :=
+                 (hang qpath : option (list label)) : result :=
   match fuel with
-  | O => {| res_outcomes := outs; res_states := nstates; res_quiescent := nquiet; res_complete := false; res_hang := hang |}
+  | O => {| res_outcomes := outs; res_states := nstates; res_quiescent := nquiet; res_complete := false; res_hang := hang; res_quiet := qpath |}
   | S fuel' =>
     match todo with
-    | [] => {| res_outcomes := outs; res_states := nstates; res_quiescent := nquiet; res_complete := true; res_hang := hang |}
+    | [] => {| res_outcomes := outs; res_states := nstates; res_quiescent := nquiet; res_complete := true; res_hang := hang; res_quiet := qpath |}
     | (st, path) :: rest =>
       let nx := succs sc p st in
       match nx with
@@ -325,7 +327,7 @@ Fixpoint explore (fuel : nat) (sc : scenario) (p : params) (todo : list (state *
                        | Some _ => hang
                        | None => if final st then None else Some path
                        end in
-          explore fuel' sc p rest seen (add_nat (outcome_code st) outs) (S nstates) nquiet hang'
+          explore fuel' sc p rest seen (add_nat (outcome_code st) outs) (S nstates) nquiet hang' qpath
       | _ =>
           let quiet := match nx with [(LEnvTearDown, _)] => negb (returned_err st) && negb (final st) | _ => false end in
           let '(todo', seen') :=
@@ -336,13 +338,14 @@ Fixpoint explore (fuel : nat) (sc : scenario) (p : params) (todo : list (state *
                          else ((snd ls, fst ls :: path) :: td, PositiveSet.add k sn))
                       nx (rest, seen) in
           explore fuel' sc p todo' seen' outs (S nstates) (if quiet then S nquiet else nquiet) hang
+                  (match qpath with Some _ => qpath | None => if quiet then Some path else None end)
       end
     end
   end.
 
 Definition explore_scenario (fuel : nat) (sc : scenario) (p : params) : result :=
   let st := start_state sc p in
-  explore fuel sc p [(st, [])] (PositiveSet.add (state_key st) PositiveSet.empty) [] 0 0 None.
+  explore fuel sc p [(st, [])] (PositiveSet.add (state_key st) PositiveSet.empty) [] 0 0 None None.
 
 (* ---------- a deterministic scheduler ---------- *)
 (* always the first successor in label order; used for non-vacuity examples *)
